@@ -174,4 +174,53 @@ func factsC05() {
 		return true
 	})
 	addStrList("c05BackendMapsShape", bmc, "config.WriteBackendMaps: loops and conditions in source order")
+	// the dynamic updater changes stored backends in place (Model/C05Align.lean): alignSlots walks Items(), both
+	// loops that append a slot raise `changed`, and `changed` alone decides BackendChanged(back)
+	du := "pkg/haproxy/dynupdate.go"
+	var al []string
+	ast.Inspect(methodDecl(du, "dynUpdater", "alignSlots").Body, func(n ast.Node) bool {
+		switch v := n.(type) {
+		case *ast.RangeStmt:
+			al = append(al, "range:"+c05Expr(v.X))
+		case *ast.ForStmt:
+			if v.Cond != nil {
+				al = append(al, "for:"+c05Expr(v.Cond))
+			}
+		case *ast.AssignStmt:
+			if len(v.Lhs) == 1 && len(v.Rhs) == 1 && c05Expr(v.Lhs[0]) == "changed" {
+				al = append(al, "changed"+v.Tok.String()+c05Expr(v.Rhs[0]))
+			}
+		case *ast.IfStmt:
+			for _, st := range v.Body.List {
+				if e, ok := st.(*ast.ExprStmt); ok {
+					if c, ok := e.X.(*ast.CallExpr); ok && c05Expr(c.Fun) == "backends.BackendChanged" {
+						al = append(al, "if:"+c05Expr(v.Cond)+":"+c05Expr(c))
+					}
+				}
+			}
+		case *ast.CallExpr:
+			if c05Expr(v.Fun) == "back.AddEmptyEndpoint" {
+				al = append(al, "back.AddEmptyEndpoint")
+			}
+		}
+		return true
+	})
+	addStrList("c05AlignSlotsShape", al, "dynUpdater.alignSlots: the walk, the two slot loops with their `changed` flag, the condition of BackendChanged")
+	var du2 []string
+	ast.Inspect(methodDecl(du, "dynUpdater", "update").Body, func(n ast.Node) bool {
+		switch v := n.(type) {
+		case *ast.AssignStmt:
+			if len(v.Lhs) == 1 && len(v.Rhs) == 1 {
+				du2 = append(du2, c05Expr(v.Lhs[0])+v.Tok.String()+c05Expr(v.Rhs[0]))
+			}
+		case *ast.IfStmt:
+			du2 = append(du2, "if:"+c05Expr(v.Cond))
+		case *ast.ExprStmt:
+			if c, ok := v.X.(*ast.CallExpr); ok {
+				du2 = append(du2, c05Expr(c))
+			}
+		}
+		return true
+	})
+	addStrList("c05DynUpdateShape", du2, "dynUpdater.update: pairs are only looked at on committed data; alignSlots iff a reload is due")
 }
